@@ -123,9 +123,23 @@ def tok_shape(code):
     return out
 
 
+def concrete(x):
+    """realise a (possibly symbolic) string before handing it to the C-level parser: compile()/tokenize reject proxy strings,
+    which would otherwise be mistaken for 'output cannot compile'"""
+    try:
+        from crosshair.core import deep_realize
+
+        return deep_realize(x)
+    except Exception:  # noqa
+        return x
+
+
 def ast_confirm(out, ref):
     """The property's own observation, concretely (this realises `out`): compile and compare the AST and the token sequence with
     the benign payload's, constants and VAR_/_lambda_ identifier tails blanked. True = no violation (also when `out` cannot compile)."""
+    out = concrete(out)
+    if not isinstance(out, str):
+        raise TypeError("generated code is not a str")
     try:
         s1 = ast_shape(out)
         t1 = tok_shape(out)
@@ -173,3 +187,58 @@ def transpile_struct_spied(struct):
         return transpile_struct_det(struct), calls
     finally:
         T.re = real
+
+
+_VOCAB = None
+
+
+def vocabulary():
+    """NAME tokens of the fixed template vocabulary: every element / modifier template and the structure templates (benign programs)."""
+    global _VOCAB
+    if _VOCAB is None:
+        import io
+        import keyword
+        import tokenize
+
+        texts = [v[0] for v in E.elements.values() if isinstance(v[0], str)] + list(E.modifiers.values())
+        for prog in ("[1|2|3|4]", "(i|1)", "(1)", "{1|2}", "{1}", "λ1;", "λ2|1;", "ƛ1;", "'1;", "µ1;", "⟨1|2⟩", "@f:1:a:*|1;@f;", "v+", "₌+-", "≬+-*", "⁽+", "‡+-", "&+", "~+", "ß+", "ƒ+", "ɖ+", "₍+-",
+                     "(X)", "(x)", "λX;", "λx;", "@f|X;", "@f|x;", "→a ←a → ←", "→_a ←_a", "`a`", chr(92) + "a", "‛ab", "«a«", "»a»", "⁺a", "1.5", "1°2", "vx", "[X]", "X", "x"):
+            try:
+                texts.append(transpile_det(prog))
+            except Exception:  # noqa
+                pass
+        names = set(keyword.kwlist)
+        for t in texts:
+            try:
+                for tok in tokenize.generate_tokens(io.StringIO(t).readline):
+                    if tok.type == tokenize.NAME:
+                        names.add(tok.string)
+            except Exception:  # noqa
+                continue
+        _VOCAB = names
+    return _VOCAB
+
+
+def names_from_vocabulary(code):
+    """The property's observation on a whole generated module (realises `code`): every NAME token is template vocabulary or a
+    VAR_/_lambda_ identifier over [A-Za-z0-9_], and there is no comment. True also when the code cannot be compiled."""
+    import io
+    import tokenize
+
+    code = concrete(code)
+    if not isinstance(code, str):
+        raise TypeError("generated code is not a str")
+    try:
+        compile(code, "<generated>", "exec")
+        toks = list(tokenize.generate_tokens(io.StringIO(code).readline))
+    except (SyntaxError, ValueError, IndentationError):
+        return note("output cannot compile")
+    except Exception:  # noqa
+        return note("output cannot be tokenised")
+    vocab = vocabulary()
+    for tok in toks:
+        if tok.type == tokenize.COMMENT:
+            return explain("program text in a comment", tok.string[:30])
+        if tok.type == tokenize.NAME and tok.string not in vocab and not re.fullmatch(r"(VAR_[A-Za-z0-9_]*|_lambda_[0-9a-f]+|VAR_LOOP[0-9a-f]+)", tok.string):
+            return explain("a name outside the template vocabulary", tok.string[:40])
+    return True
